@@ -63,7 +63,7 @@ Proof.
   assert (F : Core w /\ (node_has_elem w h = false -> same_tree w w)).
   { split; auto. intros _. apply same_tree_refl. }
   wrun_ro H ltac:(exact F).
-  all: wstepn H u Es; apply set_node_wset in Es as (Eu & ->); [|discriminate Eu].
+  all: wstepn H u Es; apply set_node_wset in Es as (Eu & ->).
   all: match type of H with ?rest ?w1 = _ =>
          assert (ST : same_tree w1 w') by (refine ((_ : stp rest) w1 _ w' H); stp_tac);
          assert (C1 : Core w1 /\ (node_has_elem w h = false -> same_tree w w1))
